@@ -43,6 +43,7 @@ type callJudgement struct {
 	okAvail         bool // a well-formed download started before the call returned
 	scriptedFault   bool // a scripted faulty download may have been handed to this call
 	cancelledByPeer bool // a download that was aborted by ANOTHER caller's cancellation may have been handed to this call
+	ownerCancelled  bool // ... and the owner of such a download (another caller) was cancelled before the download ended
 	nTaint          int
 	skipGrey        bool
 	verdict         string // held-accept | held-reject | grey-* | violation
@@ -62,6 +63,11 @@ func judgeCall(rr *roundRec, ph *phaseRec, c *callRec) (callJudgement, *finding)
 			continue
 		}
 		j.nTaint++
+		for _, o := range ph.Calls {
+			if o.ID == d.Owner && o.ID != c.ID && o.CancelSeq != 0 && (d.EndSeq == 0 || o.CancelSeq < d.EndSeq) {
+				j.ownerCancelled = true // the caller that started this download was cancelled while it was in flight
+			}
+		}
 		switch {
 		case d.OK():
 		case d.Cancelled() && d.ScriptedFaulty():
@@ -121,7 +127,7 @@ func judgeCall(rr *roundRec, ph *phaseRec, c *callRec) (callJudgement, *finding)
 		if j.scriptedFault {
 			return j, &finding{"cached-key-lost-after-failed-download", fmt.Sprintf("a token whose key is cached and still served was rejected (%q) while the endpoint answered with faults: a failed download must not discard cached keys: %s", c.Err, where)}
 		}
-		if j.cancelledByPeer {
+		if j.cancelledByPeer || j.ownerCancelled {
 			return j, &finding{"cancel-propagates-to-other-caller", fmt.Sprintf("a token whose key is cached and still served was rejected (%q) after another caller's cancellation: %s", c.Err, where)}
 		}
 		return j, &finding{"cached-key-not-accepted", fmt.Sprintf("a token whose key is cached and still served was rejected (%q): %s", c.Err, where)}
@@ -139,7 +145,7 @@ func judgeCall(rr *roundRec, ph *phaseRec, c *callRec) (callJudgement, *finding)
 		j.verdict = "grey-reject:faulty-download-overlapped"
 	default:
 		j.verdict = "violation"
-		if j.cancelledByPeer {
+		if j.cancelledByPeer || j.ownerCancelled {
 			return j, &finding{"cancel-propagates-to-other-caller", fmt.Sprintf("caller %d has a live context and a token signed by a served key, no faulty download overlapped its call, yet it failed with %q because the shared download was aborted by ANOTHER caller's cancellation: %s", c.ID, c.Err, where)}
 		}
 		if j.nTaint == 0 {
@@ -252,7 +258,7 @@ func judgePhase(run *ev.Run, rr *roundRec, pi int, ph *phaseRec) []finding {
 		if j.scriptedFault {
 			taint += "f"
 		}
-		if j.cancelledByPeer {
+		if j.cancelledByPeer || j.ownerCancelled {
 			taint += "c"
 		}
 		run.Distinct(strings.Join([]string{ph.Spec.Mode, shapeName(ph.C0), shapeName(ph.Spec.Shape), c.Kind, j.rC.String(), j.rS.String(), cp, role, taint, outc, fmt.Sprint(rr.Skip)}, "|"))
@@ -288,7 +294,7 @@ func judgePhase(run *ev.Run, rr *roundRec, pi int, ph *phaseRec) []finding {
 		if c.OK && sawFault && j.rC == refAccept && j.scriptedFault {
 			run.Observed("fault:cached-key-survives-failed-download")
 		}
-		if c.OK && j.live && j.cancelledByPeer && c.CancelSeq == 0 {
+		if c.OK && j.live && j.ownerCancelled && j.rC != refAccept && j.rS == refAccept {
 			run.Observed("cancel:peer-cancelled-other-caller-still-succeeds")
 		}
 		if c.CancelPoint == "parked-as-joiner" {
@@ -414,7 +420,15 @@ func linearizable(rr *roundRec) (porcupine.CheckResult, int) {
 				continue
 			}
 			j, _ := judgeCall(rr, ph, c)
-			ops = append(ops, porcupine.Operation{ClientId: 1 + n%60, Input: pcIn{T: c.Tok, Live: j.live, MayFail: j.scriptedFault, OKAvail: j.okAvail, SkipGrey: j.skipGrey},
+			okAvail := j.okAvail
+			for _, d := range ph.Downloads {
+				// a download started on behalf of this caller may complete after the caller gave up (own context cancelled):
+				// its effect on the cache is attributed to this caller's operation and adopted later
+				if d.OK() && d.Owner == c.ID {
+					okAvail = true
+				}
+			}
+			ops = append(ops, porcupine.Operation{ClientId: 1 + n%60, Input: pcIn{T: c.Tok, Live: j.live, MayFail: j.scriptedFault, OKAvail: okAvail, SkipGrey: j.skipGrey},
 				Output: c.OK, Call: c.CallSeq, Return: c.RetSeq})
 			n++
 		}
